@@ -31,7 +31,7 @@ CLAIMED = {
    note="PARTIAL: WriteMessage is verified for termination, transport-error propagation, exact output of single-chunk messages and own Set Chunk Size; the byte-exact multi-chunk layout for arbitrary sizes is not under an unbounded contract (the round-trip lemmas are bounded stand-ins at fixed sizes); the whole-session induction is a paper argument over the per-step contracts; the handshake is not covered. Trusted: ghost-stream contracts of io.ReadFull/binary.Read/bufio, govc, go/ssa, solvers.",
    design="7/C01"),
  "C02": dict(
-   text="readBasicHeader against the three basic-header forms (all first bytes, exact consumption), readMessageHeader against RTMP 5.3.1.2/5.3.1.3: mandatory rejections (type 0 inside a message, length change, fresh stream not starting with type 0 except the librtmp ping), acceptance otherwise, field replacement/inheritance, timestamp rules for types 0-3 reduced to 31 bits, extended timestamp of type 0; frame conditions (only the addressed chunk stream's state and message change) and preservation of the reader-state invariant across ReadMessage.",
+   text="readBasicHeader against the three basic-header forms (all first bytes, exact consumption), readMessageHeader against RTMP 5.3.1.2/5.3.1.3: mandatory rejections (type 0 inside a message, length change, fresh stream not starting with type 0 except the librtmp ping), acceptance otherwise, field replacement/inheritance, timestamp rules for types 0-3 reduced to 31 bits, extended timestamp of type 0; frame conditions (only the addressed chunk stream's state and message change) and preservation of the reader-state invariant across ReadMessage. A BOUNDED conformance lemma feeds the real ReadMessage a chunk stream written from RTMP 1.0 5.3.1 (two chunk streams interleaved, 1-, 2- and 3-byte basic headers, all four header types, timestamp deltas, a type-3 chunk that starts a new message; arbitrary payload bytes) and requires the six messages back in completion order with the right type, stream id, timestamp and payload, the reader stopping exactly at the end of the input.",
    note="Known finding (recorded, not repaired): extended timestamp of type-1/2 chunks taken as absolute instead of delta. Completion order over unbounded interleavings follows by induction over the frame condition (not mechanised). Trusted: ghost-stream contracts, govc, go/ssa, solvers.",
    design="7/C02"),
  "C03": dict(
